@@ -28,6 +28,23 @@ def impl_parse_dump(text):
         return "ERR " + classify_exc(e)
 
 
+def impl_parse_dump_after_use(text):
+    """the same text parsed AGAIN after the first tree was used the way both generators use it (instantiated in place):
+    parsing is a function of the text"""
+    import pydump
+    from gtwrap.interface_parser import Module
+    import gtwrap.template_instantiator as instantiator
+    try:
+        tree = Module.parseString(text)
+        try:
+            instantiator.instantiate_namespace(tree)
+        except Exception:  # noqa
+            pass
+        return pydump.module(Module.parseString(text))
+    except Exception as e:  # noqa
+        return "ERR " + classify_exc(e)
+
+
 def model_parse_dump(text):
     st, out = fw.worker_driver().call("parse", text)
     return out if st == "ok" else "ERR " + out
@@ -68,6 +85,7 @@ def case(idx, payload):
     m, style, text = gen_case(seed, idx, cfg_kw)
     want = gen.dump_module(m)
     impl = impl_parse_dump(text)
+    impl_again = impl_parse_dump_after_use(text) if idx % 3 == 0 else impl
     model = model_parse_dump(text)
     # the Lean printer `Spec.lexemes` of the parsed tree vs the lexemes the text was rendered from, and whether the model
     # parser reads those lexemes back (the instance of theorem C01_module_roundtrip_lexemes for this tree)
@@ -79,7 +97,7 @@ def case(idx, payload):
         lean = norm_tokens([t[1:] for t in toks.split("\x1f")] if toks else [])
         mine = norm_tokens([t for _, t in gen.lexemes(m)])
         lex_eq = lean == mine
-    return dict(idx=idx, style=style, text=text, want=want, impl=impl, model=model, stats=stats_of(m),
+    return dict(idx=idx, style=style, text=text, want=want, impl=impl, impl_again=impl_again, model=model, stats=stats_of(m),
                 nlex=len(gen.lexemes(m)), lex_eq=lex_eq, rt=rt)
 
 
@@ -118,7 +136,10 @@ def run_stream(ctx, n, cfg_kw=None, tag="valid"):
         if r.get("lex_eq") is False and r["model"] == r["want"]:
             ctx.disagree("Spec.lexemes (Lean printer) of the tree differs from the lexemes the text was rendered from",
                          input=r["text"], case=r["idx"], stream=tag)
-        if r["impl"] != r["want"]:
+        if r["impl"] == r["want"] and r.get("impl_again", r["impl"]) != r["impl"]:
+            ctx.spec_fail("parsing the same text a second time (after the first tree was instantiated) gives another tree",
+                          input=r["text"], case=r["idx"], stream=tag, **first_diff(r["impl"], r["impl_again"]))
+        elif r["impl"] != r["want"]:
             # the property's own oracle fails on the implementation
             ctx.spec_fail("parse tree of the implementation differs from the tree the text was rendered from",
                           input=r["text"], case=r["idx"], stream=tag, **first_diff(r["want"], r["impl"]))
